@@ -233,6 +233,17 @@ def gen_cases(tier: str, seed: int) -> List[Dict]:
                 if quick and rng.random() < 0.4:
                     continue
                 add("set_dimensions", S.make_poly_spec("a", names, exps[:3], shape, rng, 3, zero_prob=0.15, literal_prob=0.15, mode="raw"), dimensions=dims)
+    # native dtype layer: coefficients at the edges of the integer dtypes (and exactly representable floats); none of these functions
+    # does arithmetic that could change a value, so native results must be exact
+    dts = ["int64", "uint64", "int32", "uint8", "int8", "float32", "float64", "uint32"]
+    for dt in dts if not quick else dts[:2] + rng.sample(dts[2:], 2):
+        names, exps = monosets[1]
+        for shape in [(), (2,)]:
+            g, r = rng.choice(flags)
+            add("decompose", S.extreme_poly_spec(names, exps, shape, dt, rng, zero_prob=0.2), tag_dtype=dt)
+            add("lead", S.extreme_poly_spec(names, exps, shape, dt, rng, zero_prob=0.3), graded=g, reverse=r, tag_dtype=dt)
+            add("const", S.extreme_poly_spec(names, [[0, 0], [1, 0]], shape, dt, rng, zero_prob=0.5), tag_dtype=dt)
+            add("set_dimensions", S.extreme_poly_spec(names, exps, shape, dt, rng, zero_prob=0.2), dimensions=rng.choice([1, 3]), tag_dtype=dt)
     # dropping every term (all terms involve a dropped indeterminate)
     for shape in [(), (2,)]:
         add("set_dimensions", S.make_poly_spec("a", ("q0", "q1"), [[0, 1], [1, 1]], shape, rng, 3, zero_prob=0.0, literal_prob=0.2, mode="raw"), dimensions=1)
